@@ -538,6 +538,17 @@ pub fn load_event(ctx: &Ctx, a: &Value) -> (String, Value) {
                     }
                     bytes = (out.join("\n") + "\n").into_bytes();
                 }
+                "dropcols" => {
+                    // the last `arg` columns disappear from the header and from every row (TargetData, TargetKey, EndOffset, ...)
+                    let text = String::from_utf8_lossy(&bytes).to_string();
+                    let mut out: Vec<String> = Vec::new();
+                    for line in text.lines() {
+                        let cells: Vec<&str> = line.split(',').collect();
+                        let keep = cells.len().saturating_sub(arg as usize);
+                        out.push(cells[..keep].join(","));
+                    }
+                    bytes = (out.join("\n") + "\n").into_bytes();
+                }
                 "delete_file" => {
                     let _ = std::fs::remove_file(&target);
                     bytes.clear();
